@@ -141,7 +141,7 @@ impl<E: FieldElement> DeepCompositionPoly<E> {
 
         // divide the composition polynomials by (x - z) and (x - z * g), respectively,
         // and add the resulting polynomials together; the output of this step
-        // is a single trace polynomial T(x) and deg(T(x)) = trace_length - 2.
+        // is a single trace polynomial T(x) and deg(T(x)) <= trace_length - 2.
         let mut trace_poly =
             merge_trace_compositions(vec![t1_composition, t2_composition], vec![self.z, next_z]);
 
@@ -185,7 +185,15 @@ impl<E: FieldElement> DeepCompositionPoly<E> {
 
         // set the coefficients of the DEEP composition polynomial
         self.coefficients = trace_poly;
-        assert_eq!(self.poly_size() - 2, self.degree());
+        // dividing out (x - z) and (x - z * g) must have freed the top coefficient; the degree is
+        // exactly poly_size - 2 for generic traces but can be lower (down to the zero polynomial)
+        // for valid degenerate ones, e.g. when all columns are constant
+        assert!(
+            self.degree() <= self.poly_size() - 2,
+            "degree of trace composition must be at most {}, but was {}",
+            self.poly_size() - 2,
+            self.degree()
+        );
     }
 
     // CONSTRAINT POLYNOMIAL COMPOSITION
@@ -223,7 +231,13 @@ impl<E: FieldElement> DeepCompositionPoly<E> {
         for (i, poly) in column_polys.into_iter().enumerate() {
             mul_acc::<E, E>(&mut self.coefficients, &poly, self.cc.constraints[i]);
         }
-        assert_eq!(self.poly_size() - 2, self.degree());
+        // same bound as in add_trace_polys(): exact for generic traces, an upper bound in general
+        assert!(
+            self.degree() <= self.poly_size() - 2,
+            "degree of DEEP composition polynomial must be at most {}, but was {}",
+            self.poly_size() - 2,
+            self.degree()
+        );
     }
 
     // LOW-DEGREE EXTENSION
